@@ -13,7 +13,7 @@ LEVEL = "exploration"
 RULE = (
     "Unmatched instance-map pairs (both sides non-empty; 1-3-D; derived predictions: shifts, grow/shrink, splits into "
     "fragments, merges, spurious/deleted instances, also with roles exchanged so that one prediction spans several "
-    "references) x metric in {IoU, Dice, ASSD} x threshold (fixed grid, floats, or exactly the score of one of the "
+    "references; 1-D maps given as runs in which large instances are touched by tiny ones) x metric in {IoU, Dice, ASSD} x threshold (fixed grid, floats, or exactly the score of one of the "
     "case's candidate pairs) x allow_many_to_one x a second threshold for the monotonicity relation. Exhaustive: all 1-D "
     "pairs up to length 4 (quick) / 5 (thorough) over labels {0,1,2}. Oracle = validity predicates (function, "
     "injectivity, overlap, threshold, maximality, no displacement, monotonicity) + membership in the set of greedy "
@@ -49,8 +49,23 @@ def prepare(tier):
     lib.install_assd_snap()
 
 
+@st.composite
+def runs_case(draw):
+    """1-D maps given as runs: large instances touched by tiny ones (overlap ratios far below 1/16),
+    long-range ASSD candidates."""
+    runs = []
+    for _ in range(draw(st.integers(2, 8))):
+        runs.append([draw(st.sampled_from([0, 1, 2, 3])), draw(st.sampled_from([0, 1, 2, 3])), draw(st.sampled_from([1, 1, 2, 3, 17, 40, 100]))])
+    pred = np.concatenate([np.full(n, a, dtype=np.int64) for a, b, n in runs])
+    ref = np.concatenate([np.full(n, b, dtype=np.int64) for a, b, n in runs])
+    metric = draw(st.sampled_from(["IOU", "DSC", "ASSD"]))
+    thr = draw(st.one_of(gen.threshold(metric), st.sampled_from([0.01, 0.02, 0.05]).map(lambda v: {"v": v})))
+    return {"pred": pred.tolist(), "ref": ref.tolist(), "dtype": "uint8", "metric": metric, "thr": thr, "thr2": draw(gen.threshold(metric)), "m2o": draw(st.booleans())}
+
+
 def searches(tier):
-    return [("pairs", case_strategy(), BUDGET[tier])]
+    n = BUDGET[tier]
+    return [("pairs", case_strategy(), n), ("runs_1d", runs_case(), n // 3)]
 
 
 def enumerations(tier):
